@@ -617,10 +617,91 @@ pub fn bfs_from(ctx: &mut Ctx, game: &Game, r: Node, family: u8, max_states: usi
     complete
 }
 
+/// LONG game: the deterministic deep line (seed, a, b) of universe.rs as a game whose alphabet is
+/// the distinct coordinate texts of the line; returns the game and the push operations of the line
+pub fn long_game(seed: usize, a: usize, b: usize, max: usize) -> (Game, Vec<Op>) {
+    let seeds = crate::universe::seeds();
+    let start = seeds[seed % seeds.len()];
+    let line = crate::universe::long_line(&start, a, b, max);
+    let mut alphabet: Vec<String> = Vec::new();
+    let mut ops = Vec::new();
+    for m in &line {
+        let t = text::uci(*m);
+        let idx = match alphabet.iter().position(|x| *x == t) {
+            Some(i) => i,
+            None => {
+                alphabet.push(t);
+                alphabet.len() - 1
+            }
+        };
+        ops.push(Op::Push(idx, 0));
+    }
+    let name: &'static str = Box::leak(format!("LONG seed={} a={} b={} max={}", seed, a, b, max).into_boxed_str());
+    (Game { name, start, alphabet, depth: max, flavours: false, lists: false, outcome_ops: true }, ops)
+}
+
+fn long_game_by_name(name: &str) -> Option<Game> {
+    let rest = name.strip_prefix("LONG ")?;
+    let nums: Vec<usize> = rest.split(|c: char| !c.is_ascii_digit()).filter(|x| !x.is_empty()).filter_map(|x| x.parse().ok()).collect();
+    if nums.len() != 4 {
+        return None;
+    }
+    Some(long_game(nums[0], nums[1], nums[2], nums[3]).0)
+}
+
+/// one deep execution of a LONG game: push the whole line with the full oracle after every
+/// `stride`-th ply (and after the last), probe the automatic outcome at those points on a copy,
+/// then pop everything, again with the full oracle
+pub fn long_run(ctx: &mut Ctx, seed: usize, a: usize, b: usize, max: usize, stride: usize, family: u8) -> usize {
+    let (game, ops) = long_game(seed, a, b, max);
+    let Some(mut node) = root(&game) else { return 0 };
+    check_state(ctx, &game, &node, family);
+    let n = ops.len();
+    for (i, op) in ops.iter().enumerate() {
+        let nv = ctx.nviol;
+        let parent = node.clone();
+        if !apply_in_place(ctx, &game, &mut node, &parent, op, family) || ctx.nviol > nv {
+            return i;
+        }
+        if (i + 1) % stride == 0 || i + 1 == n {
+            check_state(ctx, &game, &node, family);
+            for f in 0..3 {
+                if let Some(n2) = apply(ctx, &game, &node, &Op::Auto(f), family) {
+                    check_state(ctx, &game, &n2, family);
+                    // a pop clears the stored outcome and returns to the previous state
+                    if let Some(n3) = apply(ctx, &game, &n2, &Op::Pop, family) {
+                        check_state(ctx, &game, &n3, family);
+                    }
+                }
+            }
+        }
+        if ctx.nviol > nv {
+            return i;
+        }
+    }
+    for i in 0..n {
+        let nv = ctx.nviol;
+        let parent = node.clone();
+        if !apply_in_place(ctx, &game, &mut node, &parent, &Op::Pop, family) || ctx.nviol > nv {
+            return n;
+        }
+        if (i + 1) % stride == 0 || i + 1 == n {
+            check_state(ctx, &game, &node, family);
+        }
+        if ctx.nviol > nv {
+            return n;
+        }
+    }
+    n
+}
+
 /// replay of a recorded operation path, with the full oracle after every step
 pub fn replay_path(case: &Value, ctx: &mut Ctx, family: u8) {
     let name = case["game"].as_str().unwrap_or("");
-    let all: Vec<Game> = games(true).into_iter().chain(games(false)).collect();
+    let mut all: Vec<Game> = games(true).into_iter().chain(games(false)).collect();
+    if let Some(g) = long_game_by_name(name) {
+        all.push(g);
+    }
     let Some(game) = all.iter().find(|g| g.name == name) else { return };
     let Some(mut node) = root(game) else { return };
     let ops = ops_of(game);
